@@ -48,9 +48,19 @@ MANIFEST_ENTRY = {
     "technique": "Lean 4 proof (Galois connection for the schedule index, loop invariant, induction over runs, "
                  "shift-register invariant, codec round trip) + model/implementation correspondence",
 }
-PROP_FILES = ["DashLive/Props/C14.lean"]
-LEAN_TARGETS = ["DashLive.Props.C14"]
-GENERATORS = []
+PROP_FILES = ["DashLive/Props/C14.lean", "DashLive/Props/GenTieEmsg.lean"]
+LEAN_TARGETS = ["DashLive.Props.C14", "DashLive.Props.GenTieEmsg"]
+
+
+def _gen_translated():
+    """Gen/Emsg.lean (RepeatingEventBase.create_emsg_boxes: box fields, the while loop with
+    continue/break, raise -> none, early returns) is translated from /repo's source text;
+    Props/GenTieEmsg.lean proves it equal to Events.createEmsg, the model C14's theorems are about"""
+    import gen_emsg
+    gen_emsg.main()
+
+
+GENERATORS = [_gen_translated]
 TRUSTED = [
     "crccheck.crc.Crc32Mpeg2 (table driven, byte-wise) computes the bit-serial CRC of the model: checked by channel `crc` every run",
     "bitstring BitArray/ConstBitStream (append, overwrite, read uint:n) as modelled by List Bool",
